@@ -57,6 +57,7 @@ class BytePipe:
         self.decoder = refcodec.StreamDecoder()
         self.link = None
         self.blocked_drains = []  # futures of writers blocked in drain ('block' policy)
+        self.peer_stopped_reading = False
         self.stall_until = 0.0  # drains stall until this virtual time (scripted stall window)
         self.on_frame = None  # RawPeer hook: called with each complete frame at write time
 
@@ -242,7 +243,13 @@ class SimStreamWriter:
             raise ConnectionResetError('Connection lost')
         pol = self.out.pol
         mode = pol.drain
-        if self.out.stall_until > self.loop.time():
+        if self.out.peer_stopped_reading:
+            # the peer has stopped reading (and half-closed): the send buffer is full, drain() waits until the connection ends
+            self.world.stats['drain_stalls'] = self.world.stats.get('drain_stalls', 0) + 1
+            fut = self.loop.create_future()
+            self.out.blocked_drains.append(fut)
+            await fut
+        elif self.out.stall_until > self.loop.time():
             self.world.stats['drain_stalls'] = self.world.stats.get('drain_stalls', 0) + 1
             await asyncio.sleep(self.out.stall_until - self.loop.time())
         elif mode != 'now' and (pol.drain_prob >= 1.0 or self.out.rng.random() < pol.drain_prob):
@@ -303,10 +310,11 @@ class ByteLink:
     def pipe(self, name):
         return self.c2s if name == 'c2s' else self.s2c
 
-    def set_cut(self, direction, offset, mode):
+    def set_cut(self, direction, offset, mode, half_dead=False):
         p = self.pipe(direction)
         p.cut_at = offset
         p.cut_mode = mode
+        p.cut_half_dead = half_dead
         if offset == 0:
             # nothing of this direction is ever delivered: fire when the first delivery would happen
             pass
@@ -320,6 +328,11 @@ class ByteLink:
         if pipe.cut_mode == 'reset':
             self.reset()
         else:
+            if getattr(pipe, 'cut_half_dead', False):
+                # the peer half-closes and stops reading: whatever the other side still writes goes nowhere
+                other = self.s2c if pipe is self.c2s else self.c2s
+                other.peer_stopped_reading = True
+                other.silent = True
             pipe.kill(eof=True)
 
     def reset(self):
